@@ -192,6 +192,7 @@ type ArgId = (i16, u8, u8);
 /// resolution in the caller's scope. Used only to *name* the defect class of a failure.
 #[derive(Clone, Copy, Debug, PartialEq, Eq, PartialOrd, Ord, Hash)]
 enum Feat {
+    LateBound,   // k=$n, the caller has no n, but a deeper invocation binds n before k is used
     Same,        // k=$k   (forwarding under the same name)
     Asc,         // k=$n with n sorting after k
     ParenShadow, // k=(d) on an invocation while the caller has a k
@@ -203,6 +204,7 @@ enum Feat {
 impl Feat {
     fn name(self) -> &'static str {
         match self {
+            Feat::LateBound => "absent-name-bound-later",
             Feat::Same => "same-name",
             Feat::Asc => "ascending-name",
             Feat::ParenShadow => "paren-default-hides-caller-value",
@@ -477,7 +479,7 @@ impl<'a> Expander<'a> {
         }
         for (n, id, aid) in &e.deps {
             if env.get(n).map(|x| x.id) != *id {
-                self.out.unsafe_feats.insert((Feat::Shadow, *aid));
+                self.out.unsafe_feats.insert((if id.is_none() { Feat::LateBound } else { Feat::Shadow }, *aid));
                 unsafe_here = true;
             }
         }
